@@ -15,7 +15,7 @@ use serde_json::json;
 
 pub struct C01;
 
-pub const RAND_POOL: u64 = 300_000;
+pub const RAND_POOL: u64 = 1_200_000;
 pub const NVEC: u64 = 6;
 
 pub fn cfg_c01() -> GenCfg {
@@ -129,8 +129,8 @@ impl Monitor for C01 {
         let nm = crate::matrix::matrix_len();
         v.extend(split_chunks("matrix", 0, nm, nm, 200));
         let n = match tier {
-            Tier::Quick => 9_000,
-            Tier::Thorough => 120_000,
+            Tier::Quick => 60_000,
+            Tier::Thorough => RAND_POOL,
         };
         v.extend(split_chunks("rand", seed_offset(seed, "C01", RAND_POOL), n, RAND_POOL, 150));
         v
